@@ -103,6 +103,33 @@ def run(w: World, rep: Report):
         ok = isinstance(ec.args[0], ast.Name) and ec.args[0].id == tape
         rep.check('C05.R1', f'functions.{fi.name}|eval-on-own-tape', ok, line=en.line, file=REL,
                   why='' if ok else 'OP_EVAL is not called with the handler\'s own tape')
+    # every normal exit that neither evaluates nor checks a signature leaves exactly one False
+    paths = cfg.paths(cfg.entry, lambda n: n is cfg.exit or n.kind == 'raise', cap=4096)
+    bad_exit = ''
+    n_fail_paths = 0
+    for pth in paths:
+        if pth[-1][0].kind == 'raise':
+            continue
+        nodes = [n for n, _ in pth]
+        if any(n is en for n in nodes) or any(n is c0 for c0, _ in cfg.nodes_with_call(
+                lambda c: isinstance(c.func, ast.Name) and c.func.id == cs.name) for n in nodes):
+            continue
+        n_fail_paths += 1
+        puts = []
+        for n in nodes:
+            if n.kind == 'stmt' and n.ast is not None:
+                for e in node_events(n):
+                    if e[0] == 'call' and dotted(e[1].func) == f'{stack}.put':
+                        a = e[1].args[0] if e[1].args else None
+                        puts.append(a.value if isinstance(a, ast.Constant) else '?')
+        if puts != [b'\x00']:
+            via = [n.line for n in nodes if n.kind == 'except']
+            bad_exit = (f'a path that neither evaluates the script nor checks a signature returns after putting {puts} '
+                        f'(expected exactly one False)' + (f'; it leaves through the exception handler at line {via[0]}' if via else ''))
+    rep.check('C05.R1', f'functions.{fi.name}|every-failing-exit-puts-false', not bad_exit and n_fail_paths >= 1,
+              line=fi.node.lineno, file=REL, why=bad_exit or ('' if n_fail_paths else 'no failing exit found'),
+              facts={'failing_exits': n_fail_paths})
+
     # ---- R2 key path -------------------------------------------------------------
     checks = cfg.nodes_with_call(lambda c: isinstance(c.func, ast.Name) and c.func.id == cs.name)
     ok = len(checks) == 1
